@@ -172,8 +172,15 @@ class UserSDE:
             rows.append(_stack(cols, 1))
         return _stack(rows, 1)
 
-    def symbols(self):
+    def h(self, t, y):
+        comps = [self._eval(f"h{i}" if self.d > 1 else "h", t, y) for i in range(self.d)]
+        return _stack(comps, 1)
+
+    def symbols(self, with_h=False):
         s = {}
+        if with_h:
+            for i in range(self.d):
+                s[f"h{i}" if self.d > 1 else "h"] = self.nargs()
         for i in range(self.d):
             s[f"f{i}" if self.d > 1 else "f"] = self.nargs()
         add = self.noise_type == 'additive'
@@ -279,3 +286,70 @@ def make_step(method, sde_type, noise_type, d=1, m=1, options=None, batch=1, see
 
 def _rnd(rng, shape, scale=1.0):
     return np.array([rng.gauss(0, scale) for _ in range(int(np.prod(shape)))]).reshape(shape)
+
+
+def make_logqp_step(method, sde_type, noise_type, d=1, m=1, options=None, seed=11):
+    """one step of `method` on SDELogqp(sde): state (B, d+1), the last channel is the running log-ratio"""
+    from torchsde._core.base_sde import SDELogqp
+    m_eff = d if noise_type == 'diagonal' else m
+    u = UserSDE(None, noise_type, sde_type, d, m_eff)
+    syms = u.symbols(with_h=True)
+    funcs, base = test_functions(syms, seed)
+    levy = LEVY_FOR.get(method, 'none')
+    mb = m_eff + 1 if noise_type == 'diagonal' else m_eff  # diagonal: one Brownian channel per (augmented) state channel
+
+    def fn(B):
+        t0, t1 = B.ts('t0'), B.ts('t1')
+        y0 = B.x('y0', (1, d))
+        l0 = B.x('l0', (1, 1))
+        user = UserSDE(B, noise_type, sde_type, d, m_eff, base_polys=base)
+        lq = SDELogqp(user)
+        if B.sym:
+            # give every evaluation of the log-ratio drift channel its own Lean definition (`…_flq`, `…_flq_1`, …)
+            from .sym import cut
+
+            def mark(fl):
+                arr = fl.a.copy()
+                for b in range(arr.shape[0]):
+                    arr[b, -1] = cut(arr[b, -1], 'flq')
+                return ST(arr)
+            of, ofg = lq.f, lq.f_and_g
+            lq.f = lambda t, y: mark(of(t, y))
+            lq.f_and_g = lambda t, y: (lambda r: (mark(r[0]), r[1]))(ofg(t, y))
+        sde = ForwardSDE(lq)
+        W = B.x('dW', (1, mb))
+        U = B.x('U', (1, mb)) if levy != 'none' else None
+        A = B.x('A', (1, mb, mb)) if levy in ('davie', 'foster') else None
+        bm = StubBM(W, U, A, levy)
+        cls = methods.select(method, sde_type)
+        solver = cls(sde=sde, bm=bm, dt=0.1, adaptive=False, rtol=1e-3, atol=1e-3, dt_min=1e-5, options=dict(options or {}))
+        ya = _cat([y0, l0], 1)
+        y1, _ = solver.step(t0, t1, ya, solver.init_extra_solver_state(t0, ya))
+        return {'y1': y1}
+
+    def sample(rng):
+        t0 = rng.uniform(0.0, 1.0)
+        h = rng.uniform(0.01, 0.3)
+        v = dict(t0=t0, t1=t0 + h, y0=_rnd(rng, (1, d)), l0=_rnd(rng, (1, 1)), dW=_rnd(rng, (1, mb), h ** 0.5))
+        if levy != 'none':
+            v['U'] = _rnd(rng, (1, mb), h ** 1.5)
+        if levy in ('davie', 'foster'):
+            a = _rnd(rng, (1, mb, mb), h)
+            v['A'] = a - np.swapaxes(a, 1, 2)
+        return v
+
+    return fn, sample, funcs
+
+
+def _cat(xs, dim):
+    if isinstance(xs[0], ST):
+        return ST(np.concatenate([x.a for x in xs], axis=dim))
+    return torch.cat(xs, dim=dim)
+
+
+def parse_return_logqp(B, T=4, d=1):
+    from torchsde._core import sdeint as sdeint_mod
+    ys = B.x('ys', (T, 1, d + 1))
+    y0 = B.x('y0a', (1, d + 1))
+    out, lr = sdeint_mod.parse_return(y0, ys, (), False, True)
+    return {'ys': out, 'lr': lr}
